@@ -6,10 +6,10 @@ use crate::uf::*;
 use crate::util::*;
 
 //@ id=C13 tier=quick to=900 cfg=std exh=1 stub=1 unwind=34 stubs="MulAssign<&TwoFloat> -> havoc; TwoFloat::recip -> havoc" desc="powi never panics: ALL x bit patterns, ALL n in i32 (loop fully unwound, 34); multiplications/recip havoc'd (their values feed no panic site)"
-#[cfg_attr(kani, kani::proof)]
-#[cfg_attr(kani, kani::unwind(34))]
-#[cfg_attr(kani, kani::stub(<twofloat::TwoFloat as core::ops::MulAssign<&twofloat::TwoFloat>>::mul_assign, crate::uf::havoc_assign_t))]
-#[cfg_attr(kani, kani::stub(twofloat::TwoFloat::recip, crate::uf::havoc_unary))]
+#[cfg_attr(all(kani, feature = "stubs"), kani::proof)]
+#[cfg_attr(all(kani, feature = "stubs"), kani::unwind(34))]
+#[cfg_attr(all(kani, feature = "stubs"), kani::stub(<twofloat::TwoFloat as core::ops::MulAssign<&twofloat::TwoFloat>>::mul_assign, crate::uf::havoc_assign_t))]
+#[cfg_attr(all(kani, feature = "stubs"), kani::stub(twofloat::TwoFloat::recip, crate::uf::havoc_unary))]
 pub fn c13_powi_total() {
     let x = any_tf();
     let n = any_i32();
@@ -36,10 +36,10 @@ pub fn c13_powi_0_1() {
 }
 
 //@ id=C13 tier=quick to=1800 cfg=std stub=1 unwind=10 stubs="MulAssign<&TwoFloat> -> UF; TwoFloat::recip -> UF" bounds="0 < n <= 255 symbolic" desc="powi(x,-n) is bit-identical to powi(x,n).recip() for every x and 0 < n <= 255, for every pure function in place of the multiplication and of recip (UF stubs)"
-#[cfg_attr(kani, kani::proof)]
-#[cfg_attr(kani, kani::unwind(10))]
-#[cfg_attr(kani, kani::stub(<twofloat::TwoFloat as core::ops::MulAssign<&twofloat::TwoFloat>>::mul_assign, crate::uf::uf_mul_assign_t))]
-#[cfg_attr(kani, kani::stub(twofloat::TwoFloat::recip, crate::uf::uf_u1))]
+#[cfg_attr(all(kani, feature = "stubs"), kani::proof)]
+#[cfg_attr(all(kani, feature = "stubs"), kani::unwind(10))]
+#[cfg_attr(all(kani, feature = "stubs"), kani::stub(<twofloat::TwoFloat as core::ops::MulAssign<&twofloat::TwoFloat>>::mul_assign, crate::uf::uf_mul_assign_t))]
+#[cfg_attr(all(kani, feature = "stubs"), kani::stub(twofloat::TwoFloat::recip, crate::uf::uf_u1))]
 pub fn c13_powi_neg_is_recip() {
     let x = any_tf();
     let n = any_i32();
@@ -51,10 +51,10 @@ pub fn c13_powi_neg_is_recip() {
 }
 
 //@ id=C13 tier=quick to=900 cfg=std desc="ground: powi(x, i32::MIN) and powi(x, -i32::MAX) return without panic for concrete x (dev profile semantics: overflow checks on)"
-#[cfg_attr(kani, kani::proof)]
-#[cfg_attr(kani, kani::unwind(34))]
-#[cfg_attr(kani, kani::stub(<twofloat::TwoFloat as core::ops::MulAssign<&twofloat::TwoFloat>>::mul_assign, crate::uf::havoc_assign_t))]
-#[cfg_attr(kani, kani::stub(twofloat::TwoFloat::recip, crate::uf::havoc_unary))]
+#[cfg_attr(all(kani, feature = "stubs"), kani::proof)]
+#[cfg_attr(all(kani, feature = "stubs"), kani::unwind(34))]
+#[cfg_attr(all(kani, feature = "stubs"), kani::stub(<twofloat::TwoFloat as core::ops::MulAssign<&twofloat::TwoFloat>>::mul_assign, crate::uf::havoc_assign_t))]
+#[cfg_attr(all(kani, feature = "stubs"), kani::stub(twofloat::TwoFloat::recip, crate::uf::havoc_unary))]
 pub fn c13_powi_extreme_n() {
     if !crate::gen_cells::known("c13_powi_min") {
         let _ = tf(1.5, 0.0).powi(i32::MIN);
